@@ -262,9 +262,144 @@ def thread_jumps(d):
     return nd
 
 
+def _single_defs(blocks):
+    """local -> (bb, si, stmt) for locals assigned exactly once, by a plain statement"""
+    count = {}
+    where = {}
+    for bi, b in enumerate(blocks):
+        for si, st in enumerate(b["stmts"]):
+            if st["k"] == "assign" and not st["place"]["p"]:
+                l = st["place"]["l"]
+                count[l] = count.get(l, 0) + 1
+                where[l] = (bi, si, st)
+        t = b["term"]
+        if t["k"] == "call" and not t["dest"]["p"]:
+            l = t["dest"]["l"]
+            count[l] = count.get(l, 0) + 2
+    return {l: where[l] for l, c in count.items() if c == 1}
+
+
+def inline_closure_calls(facts, d, memo, rounds=2):
+    """A helper that takes a callback (`fn with(&mut self, f: impl FnOnce(&mut S))`) calls it through
+    `FnOnce::call_once(f, (args,))`.  Once the helper is inlined into its caller the callee operand
+    is the caller's own closure aggregate, so the closure body can be spliced in as well: a
+    higher-order private helper then changes no verdict either."""
+    for _ in range(rounds):
+        blocks = d["blocks"]
+        defs = _single_defs(blocks)
+
+        def closure_of(op, depth=0):
+            if op["k"] not in ("move", "copy") or op["place"]["p"] or depth > 6:
+                return None
+            ent = defs.get(op["place"]["l"])
+            if ent is None:
+                return None
+            (bi, si, st) = ent
+            rv = st["rv"]
+            if rv["k"] == "aggregate" and rv.get("agg") == "closure":
+                return (bi, si, rv["closure"])
+            if rv["k"] in ("use", "cast"):
+                return closure_of(rv["op"], depth + 1)
+            if rv["k"] == "ref" and not rv["place"]["p"]:
+                return closure_of({"k": "copy", "place": rv["place"]}, depth + 1)
+            return None
+        sites = []
+        for i, b in enumerate(blocks):
+            t = b["term"]
+            if t["k"] != "call" or b["cleanup"] or t["target"] is None or len(t["args"]) != 2:
+                continue
+            ce = t.get("callee") or {}
+            if ce.get("name") not in ("call_once", "call_mut", "call") or \
+                    (ce.get("trait") or "").split("::")[-1] not in ("FnOnce", "FnMut", "Fn"):
+                continue
+            c = closure_of(t["args"][0])
+            if c is None:
+                continue
+            raw = facts.raw_bodies.get(c[2])
+            if raw is None or len(raw["blocks"]) > MAX_BLOCKS:
+                continue
+            sites.append((i, c, raw))
+        if not sites:
+            return d
+        new = dict(d)
+        new_blocks = [dict(b) for b in blocks]
+        new_locals = list(d["locals"])
+        for (i, (abi, asi, ckey), raw) in sites:
+            callee = inline_body(facts, raw, memo, (d["key"],), 1)
+            L0 = len(new_locals)
+            B0 = len(new_blocks)
+            t = new_blocks[i]["term"]
+            dest = t["dest"]
+            direct_ret = not dest["p"]
+
+            def lmap(l, L0=L0, dest=dest, direct_ret=direct_ret):
+                if l == 0 and direct_ret:
+                    return dest["l"]
+                return L0 + l
+
+            def bmap(b, B0=B0):
+                return B0 + b
+            new_locals.extend(callee["locals"])
+            stmts = list(new_blocks[i]["stmts"])
+            line = t.get("line")
+            stmts.append({"k": "assign", "place": {"l": L0 + 1, "p": []}, "rv": {"k": "use", "op": t["args"][0]},
+                          "line": line, "exp": False, "inl": "arg"})
+            tup = t["args"][1]
+            nparams = callee["arg_count"] - 1
+            ent = defs.get(tup["place"]["l"]) if tup["k"] in ("move", "copy") and not tup["place"]["p"] else None
+            for k in range(nparams):
+                if ent is not None and ent[2]["rv"]["k"] == "aggregate" and ent[2]["rv"].get("agg") == "tuple" and \
+                        k < len(ent[2]["rv"]["ops"]):
+                    src = ent[2]["rv"]["ops"][k]
+                elif tup["k"] in ("move", "copy"):
+                    src = {"k": "copy", "place": {"l": tup["place"]["l"],
+                                                  "p": list(tup["place"]["p"]) + [{"k": "field", "i": k, "name": str(k)}]}}
+                else:
+                    src = tup
+                stmts.append({"k": "assign", "place": {"l": L0 + 2 + k, "p": []}, "rv": {"k": "use", "op": src},
+                              "line": line, "exp": False, "inl": "arg"})
+            target = t["target"]
+            for cb in callee["blocks"]:
+                nb = {"cleanup": cb["cleanup"], "stmts": [], "term": None}
+                for st in cb["stmts"]:
+                    st2 = dict(st)
+                    st2["place"] = remap_place(st["place"], lmap)
+                    if st["k"] == "assign":
+                        st2["rv"] = remap_rvalue(st["rv"], lmap)
+                    nb["stmts"].append(st2)
+                ct = cb["term"]
+                if ct["k"] == "return":
+                    if not direct_ret:
+                        nb["stmts"].append({"k": "assign", "place": dest,
+                                            "rv": {"k": "use", "op": {"k": "move", "place": {"l": L0, "p": []}}},
+                                            "line": ct.get("line"), "exp": False, "inl": "ret"})
+                    nb["term"] = {"k": "goto", "target": target, "line": ct.get("line"), "exp": ct.get("exp", False)}
+                else:
+                    nb["term"] = remap_term(ct, lmap, bmap)
+                new_blocks.append(nb)
+            new_blocks[i] = {"cleanup": new_blocks[i]["cleanup"], "stmts": stmts,
+                             "term": {"k": "goto", "target": B0, "line": line, "exp": t.get("exp", False),
+                                      "inlined_call": {"callee": "closure " + ckey, "line": line}}}
+            # the aggregate stays (its upvars are read through it) but is no longer a closure that
+            # some consumer may or may not run
+            ab = dict(new_blocks[abi])
+            ab["stmts"] = list(ab["stmts"])
+            st = dict(ab["stmts"][asi])
+            rv = dict(st["rv"])
+            rv["spliced"] = True
+            st["rv"] = rv
+            ab["stmts"][asi] = st
+            new_blocks[abi] = ab
+        new["blocks"] = new_blocks
+        new["locals"] = new_locals
+        new["inlined"] = list(d.get("inlined", [])) + ["closure " + c[2] for (_, c, _) in sites]
+        d = new
+    return d
+
+
 def inline_all(facts):
     memo = {}
     out = {}
     for key, d in facts.raw_bodies.items():
-        out[key] = thread_jumps(inline_body(facts, d, memo))
+        out[key] = thread_jumps(inline_closure_calls(facts, inline_body(facts, d, memo), memo))
     return out
